@@ -130,7 +130,11 @@ func pathProfile(name, pathText string) string {
 	y := m.YMap()
 	y.Set("profile", m.YStr(name))
 	y.Set("prefixes", m.YMap().Set("ex", m.YStr(m.NS)))
-	y.Set("violation", m.YSeq(m.YStr("vin"), m.YStr("vcnt"), m.YStr("vnest"), m.YStr("vall")))
+	lv := m.YSeq(m.YStr("vin"), m.YStr("vcnt"), m.YStr("vnest"), m.YStr("vall"))
+	for _, sc := range c02SetConstraints {
+		lv.Items = append(lv.Items, m.YStr(sc.name))
+	}
+	y.Set("violation", lv)
 	vs := m.YMap()
 	mk := func(c *m.Y) *m.Y {
 		v := m.YMap()
@@ -148,8 +152,34 @@ func pathProfile(name, pathText string) string {
 	all.Set("exactCount", m.YInt(99))
 	all.Set("nested", inner.Clone())
 	vs.Set("vall", mk(all))
+	// set constraints look at the value set as a whole: what the path denotes, not what each alternative denotes
+	for _, sc := range c02SetConstraints {
+		vs.Set(sc.name, mk(m.YMap().Set(sc.kind, sc.list())))
+	}
 	y.Set("validations", vs)
 	return y.Print(m.YOpts{})
+}
+
+type c02SetConstraint struct {
+	name, kind string
+	members    []string // printed forms; "2" is written as the integer 2
+}
+
+func (sc c02SetConstraint) list() *m.Y {
+	seq := m.YSeq()
+	for _, x := range sc.members {
+		if x == "2" {
+			seq.Items = append(seq.Items, m.YInt(2))
+		} else {
+			seq.Items = append(seq.Items, m.YStr(x))
+		}
+	}
+	return seq
+}
+
+var c02SetConstraints = []c02SetConstraint{
+	{"vsomeA", "containsSome", []string{"a"}}, {"vsomeB2", "containsSome", []string{"b", "2"}},
+	{"vallAB", "containsAll", []string{"a", "b"}}, {"vallA2", "containsAll", []string{"a", "2"}}, {"vallTrueB", "containsAll", []string{"true", "b"}},
 }
 
 func genC02(t *rapid.T) c02Case {
@@ -312,6 +342,35 @@ func decideC02(c c02Case) ev.Verdict {
 			// failedNodes is compared only when the trace carries it (its name is not part of the property)
 			if reported && (!m.EqualStrings(wantNodes, gotNodes) || (failed >= 0 && failed != int64(len(wantNodes)))) {
 				return ev.Violation("c02-nested-nodes-mismatch", "path %q from %s (%s): nested visited %v (failedNodes=%d), the path reaches %v\ngraph:\n%s", c.PathText, n.ID, grp.tag, short(gotNodes), failed, short(wantNodes), c.Graph)
+			}
+		}
+		// (4) set constraints over the literal values of the denotation
+		images := map[string]bool{}
+		for _, r := range den {
+			if r.Val.Lit != nil {
+				images[r.Val.Lit.AsString()] = true
+			}
+		}
+		for _, sc := range c02SetConstraints {
+			hit := 0
+			for _, x := range sc.members {
+				if images[x] {
+					hit++
+				}
+			}
+			sat := hit > 0
+			if sc.kind == "containsAll" {
+				sat = hit == len(sc.members)
+			}
+			want := len(den) > 0 && !sat
+			got := false
+			for _, r := range rep.Results {
+				if r.Shape == sc.name && r.Focus == n.ID {
+					got = true
+				}
+			}
+			if got != want {
+				return ev.Violation("c02-set-constraint-mismatch", "path %q from %s: %s %v reported=%v, but the path denotes the values %v (should be reported=%v)\ngraph:\n%s", c.PathText, n.ID, sc.kind, sc.members, got, wantStrings, want, c.Graph)
 			}
 		}
 		if len(wantNodes) > 0 {
